@@ -178,7 +178,7 @@ impl Sut for OverflowQueueSut {
 
 pub fn parts(ctx: &mut Ctx) {
     let len = ctx.scale(5, 6) + 1;
-    let n = ctx.scale(12_000, 200_000);
+    let n = ctx.scale(12_000, 400_000);
     driver::parts::<IndexQueueSut>(ctx, alphabet(), len, 1, &[0, 1, 2, 3], &[0, 1, 2, 3, 4], strategy(), n);
     driver::parts::<OverflowQueueSut>(ctx, alphabet(), len, 1, &[0, 1, 2, 3], &[0, 1, 2, 3, 4], strategy(), n);
 }
